@@ -13,6 +13,7 @@ package main
 //	    stream is closed after it; both sides run to completion under a watchdog.
 //	fn=live_raw stack=S victim=server|client seed=<n> len=<bytes> shape=<kind>
 //	    a fresh endpoint fed with arbitrary bytes as the first thing it ever receives.
+//	fn=live_script ...   a scripted peer with an arbitrary certificate list: see script.go
 //
 // observed: out=ok|err|panic stalled=0|1 hand=<max> raw=<max> pend=<max buffers> pendb=<max bytes> [stackd=<bytes>]
 //
@@ -26,10 +27,10 @@ import (
 	"io"
 	"net"
 	"runtime"
-	"sync/atomic"
 	"strconv"
 	"strings"
 	"sync"
+	"sync/atomic"
 	"time"
 
 	"gitee.com/Trisia/gotlcp/dtlcp"
@@ -812,6 +813,8 @@ func execLive(desc string) string {
 		return execState(desc)
 	case "live_raw":
 		return execRaw(desc)
+	case "live_script":
+		return execScript(desc)
 	}
 	return "out=badcase"
 }
@@ -844,6 +847,21 @@ func genLive(o hx.Opts, emit func(string)) {
 		}
 		emit("fn=live_flood stack=dtlcp victim=" + v + " kind=empty n=5000 size=0")
 	}
+	// floods of PROTECTED handshake records after the handshake (there is no renegotiation, nothing
+	// will ever consume them): one more than the documented number of ignored records, forty
+	// times that number, and a flood long enough for one stack frame per record to show; small
+	// and maximum-size records. Read must end with an error (stream stack) / must not hold what
+	// it drops (datagram stack: retransmissions of the last flight are dropped by the loop).
+	for _, v := range []string{"server", "client"} {
+		for _, n := range []int{17, 640, 20000} {
+			emit(fmt.Sprintf("fn=live_flood stack=tlcp victim=%s kind=hs n=%d size=4", v, n))
+		}
+		emit("fn=live_flood stack=tlcp victim=" + v + " kind=hs n=17 size=16384")
+		emit("fn=live_flood stack=tlcp victim=" + v + " kind=hs n=640 size=4 suite=ecccbc")
+		emit("fn=live_flood stack=tlcp victim=" + v + " kind=hs n=640 size=12 suite=ecdhe")
+		emit("fn=live_flood stack=dtlcp victim=" + v + " kind=hs n=640 size=12")
+		emit("fn=live_flood stack=dtlcp victim=" + v + " kind=hs n=5000 size=25")
+	}
 	for _, st := range []string{"tlcp", "dtlcp"} {
 		for _, v := range []string{"server", "client"} {
 			for _, k := range []string{"warn", "empty", "ccs"} {
@@ -872,12 +890,16 @@ func genLive(o hx.Opts, emit func(string)) {
 			}
 		}
 	}
+	// 1c. scripted peers: Certificate messages with 0..4 entries (valid, foreign, junk) under every
+	// suite and client-auth policy, both roles
+	genScript(o, emit)
 	// 2. every handshake state x mutation kind
 	muts := []string{"trunc", "flip", "flipbody", "lenp", "lenm", "reclen", "junk", "dup", "rand", "cut", "cuths"}
 	reps := 1 * o.Scale
 	if o.Tier == "thorough" {
 		reps = 25 * o.Scale
 	}
+	var batch []string
 	for rep := 0; rep < reps; rep++ {
 		for _, st := range []string{"tlcp", "dtlcp"} {
 			for _, su := range []string{"ecc", "ecdhe"} {
@@ -897,13 +919,14 @@ func genLive(o hx.Opts, emit func(string)) {
 							if o.Tier != "thorough" && st == "dtlcp" && r.Chance(60) {
 								continue // datagram cases end by timeout: keep the quick tier short
 							}
-							emit(fmt.Sprintf("fn=live_state stack=%s victim=%s suite=%s at=%d mut=%s seed=%d", st, v, su, at, m, r.Intn(1<<30)))
+							batch = append(batch, fmt.Sprintf("fn=live_state stack=%s victim=%s suite=%s at=%d mut=%s seed=%d", st, v, su, at, m, r.Intn(1<<30)))
 						}
 					}
 				}
 			}
 		}
 	}
+	emitBatch(batch)
 	// 3. arbitrary first bytes
 	nRaw := 150 * o.Scale
 	if o.Tier == "thorough" {
